@@ -13,7 +13,8 @@ per-atom radius cutoffs; size filters int / tuple / None; default arrays None / 
 / arbitrary negative / arbitrary non-negative.
 Cells are fully, partially (slab, wire) or not periodic.
 Dict cutoffs also name species by atomic number; reinsertion is also run with an isotope substitution on the atoms
-that stayed.
+that stayed.  Some cells are shorter than the cutoff along one or two periodic directions (atoms within the cutoff of
+their own images).
 """
 from __future__ import annotations
 
@@ -37,7 +38,7 @@ ASSUMPTIONS = [
     "a default array with non-negative entries may coincide with a molecule label; such coincidences are counted but not judged (statement ambiguous)",
     "whether search_molecules may write into the caller's default array is not judged",
 ]
-REQUIRED = {"search_dict_keys_by_atomic_number": 20, "reinsert_after_isotope_substitution": 30, "reinsert_checked": 500, "reinsert_unsorted": 100, "search_checked": 300, "search_with_default_array": 60, "search_bonded": 100, "search_filtered_out": 50}
+REQUIRED = {"search_dict_keys_by_atomic_number": 20, "reinsert_after_isotope_substitution": 30, "reinsert_checked": 500, "reinsert_unsorted": 100, "search_checked": 300, "search_with_default_array": 60, "search_bonded": 100, "search_filtered_out": 50, "search_cell_shorter_than_cutoff": 40, "search_cell_shorter_than_cutoff_single_atoms_filtered": 10}
 SHARD_TIMEOUT = {"quick": 600, "thorough": 2400}
 
 
@@ -251,6 +252,18 @@ def run_search(spec, rec):
         # fully periodic, not periodic, or periodic along some axes only (slabs, wires)
         pk = rng.random()
         pbc = True if pk < 0.4 else (False if pk < 0.6 else [bool(x) for x in rng.permutation([True, True, False] if rng.random() < 0.5 else [True, False, False])])
+        thin = rng.random() < 0.15
+        if thin:
+            # a cell shorter than the cutoffs along one or two directions: atoms are within the cutoff of their own
+            # periodic images (which makes nobody a neighbour of anybody else) and of several images of each other
+            n = int(rng.integers(1, 9))
+            syms = syms[:n] if len(syms) >= n else [SPECIES[int(i)] for i in rng.integers(0, 3, n)]
+            edges = rng.uniform(6.0, 12.0, 3)
+            thin_axes = [int(ax) for ax in rng.permutation(3)[: int(rng.integers(1, 3))]]
+            for ax in thin_axes:
+                edges[ax] = rng.uniform(0.7, 2.0)
+            cell = np.diag(edges) + rng.uniform(-0.3, 0.3, (3, 3)) * (rng.random() < 0.4)
+            pos = rng.uniform(0, 1, (n, 3)) @ cell
         atoms = Atoms(syms, positions=pos, cell=cell, pbc=pbc)
         pbc = "".join("TF"[not b] for b in atoms.pbc)
         ck = rng.choice(["scalar", "dict", "radii"], p=[0.5, 0.3, 0.2])
@@ -321,6 +334,10 @@ def run_search(spec, rec):
         admitted = np.array([lo <= sizes[r] <= hi for r in roots])
         if adj.any():
             rec.count("search_bonded")
+        if thin and any(atoms.pbc[ax] for ax in thin_axes):
+            rec.count("search_cell_shorter_than_cutoff")
+            if (~adj.any(axis=1)).any() and size is not None:
+                rec.count("search_cell_shorter_than_cutoff_single_atoms_filtered")
         if (~admitted).any():
             rec.count("search_filtered_out")
         psig = tuple(sorted(sizes.values(), reverse=True))[:6]
